@@ -244,3 +244,190 @@ def bulk_hl(c, a):
     if why:
         o["why"] = why[:6]
     return o
+
+
+# ------------------------------------------------------------------ bit-granular elements longer than the bit buffer
+BITBUF = 4096
+
+
+def _bits_of(fields):
+    """fields: list of (width, value) -> string of '0'/'1', most significant bit first"""
+    return "".join(format(v & ((1 << w) - 1), "0%db" % w) for (w, v) in fields)
+
+
+@op("Bulk", "BulkBits")
+def bulk_bits(c, a):
+    from ctypes import c_uint32
+    L = c.L
+    h4api.declare_all(L)
+    L.Hbitwrite.argtypes = [c_int32, ctypes.c_int, c_uint32]
+    L.Hbitread.argtypes = [c_int32, ctypes.c_int, ctypes.POINTER(c_uint32)]
+    widths, blocks, bitoffs = list(a["widths"]), a["blocks"], list(a["bits"])
+    why = []
+    p = c.path()
+    fid = L.Hopen(p, DFACC_CREATE, 0)
+    bid = L.Hstartbitwrite(fid, 720, 1, 0)
+    L.Hbitappendable(bid)
+    fields, nbits, i = [], 0, 0
+    target = (blocks * BITBUF + 700) * 8
+    while nbits < target:
+        w = widths[i % len(widths)]
+        v = (i * 2654435761 + 12345) & ((1 << w) - 1)
+        fields.append((w, v))
+        if L.Hbitwrite(bid, w, v) != w:
+            why.append("write of field %d failed" % i)
+            break
+        nbits += w
+        i += 1
+    L.Hendbitaccess(bid, 0)
+    L.Hclose(fid)
+    bits = _bits_of(fields)
+    total = len(bits)
+
+    fid = L.Hopen(p, DFACC_READ, 0)
+    bid = L.Hstartbitread(fid, 720, 1)
+
+    def rd(w):
+        v = c_uint32(0)
+        r = L.Hbitread(bid, w, byref(v))
+        return r, v.value
+
+    # in order, with other widths than written
+    pos, k = 0, 0
+    rw = [5, 32, 1, 17, 8, 31, 3]
+    bad = None
+    while pos + 32 <= total and bad is None:
+        w = rw[k % len(rw)]
+        r, v = rd(w)
+        if r != w or v != int(bits[pos:pos + w], 2):
+            bad = pos
+        pos += w
+        k += 1
+    if bad is not None:
+        why.append("sequential read: wrong field at bit %d (byte %d)" % (bad, bad // 8))
+
+    def probe(byte, bit, w, tag):
+        at = byte * 8 + bit
+        if at + w > total or byte < 0:
+            return
+        if L.Hbitseek(bid, byte, bit) == FAIL:
+            why.append("%s: seek to (%d,%d) failed" % (tag, byte, bit))
+            return
+        r, v = rd(w)
+        if r != w or v != int(bits[at:at + w], 2):
+            why.append("%s: %d bits at (byte %d, bit %d) read %d, written %d" % (tag, w, byte, bit, v, int(bits[at:at + w], 2)))
+
+    for m in range(1, blocks + 1):
+        edge = m * BITBUF
+        for bo in bitoffs:
+            probe(edge - 100, 0, 8, "prime")                  # the buffer before the edge is the current one
+            probe(edge, bo, 17, "at the edge from the buffer before")
+            probe(edge - 100, 0, 8, "prime")
+            probe(edge - 1, bo, 32, "across the edge")
+            probe(edge - 100, 0, 8, "prime")
+            probe(edge + 1, bo, 9, "just after the edge")
+            probe(10, 1, 8, "far")
+            probe(edge, bo, 23, "at the edge from far away")
+            probe(edge + 600, 2, 8, "behind")
+            probe(edge, bo, 11, "at the edge from behind")
+            probe(edge - 1, 7, 2, "last bit before the edge")
+    L.Hendbitaccess(bid, 0)
+    L.Hclose(fid)
+    o = {"match": not why}
+    if why:
+        o["why"] = why[:6]
+    return o
+
+
+# ------------------------------------------------------------------ compressed elements with long stored streams
+def _comp_data(kind, n):
+    if kind == "ctr":      # hardly compressible
+        return bytes((i * 131 + (i >> 8) * 17 + (i * i) % 251) % 256 for i in range(n))
+    out = bytearray()      # runs of awkward lengths (126..131, 1, 2, 300) separated by single bytes
+    lens = [126, 1, 127, 2, 128, 1, 129, 3, 130, 1, 131, 300, 5]
+    i = 0
+    while len(out) < n:
+        ln = lens[i % len(lens)]
+        out += bytes([(i * 37) % 256]) * ln
+        i += 1
+    return bytes(out[:n])
+
+
+@op("Bulk", "BulkComp")
+def bulk_comp(c, a):
+    from ctypes import c_uint16
+    L = c.L
+    h4api.declare_all(L)
+    L.HCcreate.argtypes = [c_int32, c_uint16, c_uint16, ctypes.c_int, ctypes.c_void_p, ctypes.c_int, ctypes.c_void_p]
+    L.HCcreate.restype = c_int32
+    name, par = a["coder"]
+    n, pieces = a["n"], a["pieces"]
+    data = _comp_data(a["kind"], n)
+    code = {"none": 0, "rle": 1, "skphuff": 3, "deflate": 4}[name]
+    why = []
+    p = c.path()
+    fid = L.Hopen(p, DFACC_CREATE, 0)
+    minfo = (c_int32 * 16)()
+    cinfo = (c_int32 * 8)()
+    cinfo[0] = par
+    aid = L.HCcreate(fid, 730, 1, 0, minfo, code, cinfo)
+    if aid == FAIL:
+        L.Hclose(fid)
+        return {"match": False, "why": ["HCcreate failed"]}
+    cuts = [n * i // pieces for i in range(pieces + 1)]
+    for i in range(pieces):
+        seg = data[cuts[i]:cuts[i + 1]]
+        b = CBuf(len(seg), seg)
+        if L.Hwrite(aid, len(seg), ctypes.c_void_p(b.p)) != len(seg):
+            why.append("write of piece %d failed" % i)
+        b.free()
+    L.Hendaccess(aid)
+    L.Hclose(fid)
+
+    fid = L.Hopen(p, DFACC_READ, 0)
+    if L.Hlength(fid, 730, 1) != n:
+        why.append("length %d, written %d" % (L.Hlength(fid, 730, 1), n))
+    aid = L.Hstartread(fid, 730, 1)
+
+    def rd(k):
+        b = CBuf(max(k, 1))
+        r = L.Hread(aid, k, ctypes.c_void_p(b.p))
+        raw = b.raw(k) if r == k else None
+        b.free()
+        return raw
+
+    if rd(n) != data:
+        why.append("whole read differs")
+    # pieces of awkward lengths from the start
+    L.Hseek(aid, 0, 0)
+    pos, k, ok = 0, 0, True
+    lens = [1, 4095, 2, 4097, 127, 128, 129, 1000, 7]
+    while pos < n:
+        ln = min(lens[k % len(lens)], n - pos)
+        if rd(ln) != data[pos:pos + ln]:
+            ok = False
+            break
+        pos += ln
+        k += 1
+    if not ok:
+        why.append("piecewise read differs at %d" % pos)
+    # seeks around the buffer multiples, forwards and backwards
+    spots = []
+    for m in range(1, n // 4096 + 1):
+        spots += [m * 4096 - 1, m * 4096, m * 4096 + 1]
+    spots += [n - 5, 0, n // 2, 3, n - 1]
+    for sp in spots + spots[::-1]:
+        if sp < 0 or sp >= n:
+            continue
+        ln = min(300, n - sp)
+        if L.Hseek(aid, sp, 0) == FAIL:
+            why.append("seek to %d failed" % sp)
+            continue
+        if rd(ln) != data[sp:sp + ln]:
+            why.append("read of %d bytes after a seek to %d differs" % (ln, sp))
+    L.Hendaccess(aid)
+    L.Hclose(fid)
+    o = {"match": not why}
+    if why:
+        o["why"] = why[:6]
+    return o
